@@ -14,7 +14,10 @@ EXPLANATION = ("P1 the PEG extracted from the nom combinator calls of src/filter
                "semantic actions build RFC 4511 Filter shapes: and [0], or [1], not [2] explicit (abstractly evaluated on every path); the attribute-value "
                "items - found by the role of each parse step, not by function name - by exhaustive literal evaluation of the item parser over operator x "
                "value empty/not x every admissible `*` list of 0..4 components: equalityMatch [3], substrings [4] {initial [0], any [1], final [2]}, >= [5], "
-               "<= [6], present [7] primitive, ~= [8]; extensibleMatch [9] {matchingRule [1], type [2], matchValue [3], dnAttributes [4]} with the parser "
+               "<= [6], present [7] primitive, ~= [8]; WHICH piece becomes initial / any / final decided as a function of the pieces' positions alone (P3.substring-placement): the same "
+               "evaluation on every pattern of equal / different contents of up to four pieces after the first asterisk (an `any` equal to the final piece, all equal, ...), with contents "
+               "of one length and of different lengths, with and without a trailing asterisk, the initial value absent / different / equal to the last piece - a comparison of two "
+               "pieces' contents is evaluated on the octets, a comparison of two references' addresses (ptr::eq) on the positions they point to; extensibleMatch [9] {matchingRule [1], type [2], matchValue [3], dnAttributes [4]} with the parser "
                "output feeding each slot; P4 the equality / presence / substring discrimination (same evaluation), no `*` list after an ordering / approx "
                "operator, and the adjacent-asterisk test evaluated on all 121 lists of 0..4 components over {empty, x, *}; P5 the "
                "unescaper's transition table over {backslash, hex digit, other} x {WantFirst, WantSecond, Value, Error} and acceptance only "
@@ -27,7 +30,7 @@ EXPLANATION = ("P1 the PEG extracted from the nom combinator calls of src/filter
                "between hand one part's tree upwards unchanged. Not decided: "
                "'printing the BER reproduces the input' taken whole.")
 TRUSTED = ['nom combinator semantics', 'RFC 4515 grammar transcribed below', 'rules/triage/C08.tsv']
-UNDECIDED = ['round trip through a canonical printer taken whole', 'a value computation that is not a per-octet fold over Unescaper::feed is decided on literal values up to 121 octets (around every integer constant of its code), not for every length']
+UNDECIDED = ['round trip through a canonical printer taken whole', 'the initial / any / final placement is decided on `*` lists of up to four non-empty pieces (+ a trailing asterisk): a placement that changes from the fifth piece on is not seen', 'a value computation that is not a per-octet fold over Unescaper::feed is decided on literal values up to 121 octets (around every integer constant of its code), not for every length']
 ASSUMPTIONS = []
 SHARED = [('C07', ('B1.', 'B2m.', 'B4.encoder', 'B5.'), 'P7.ber-writer')]
 TRIAGE = os.path.join(engine.VERIF, 'rules', 'triage', 'C08.tsv')
@@ -590,7 +593,8 @@ def check_simple_items(ctx, f, X, rules, classmap, inl):
     and the Tag built on the single resulting path is compared with the RFC 4511 Filter the item denotes.  The code decides on a
     list only through its length, the emptiness of a component and a component's position relative to the end; lengths 0..4
     cover {no asterisk, one, two (an `any` component), three and four (several `any` components in order)} x {last empty, not}, and the
-    distinct literals tie every output octet string to the component it must come from.  So the discrimination equality /
+    distinct literals tie every output octet string to the component it must come from (lists with EQUAL components - where a
+    placement that compares contents instead of positions goes wrong - are check_placement's).  So the discrimination equality /
     presence / substrings, the initial / any / final tagging and the operator table are decided however they are spelled (a
     loop with `break`, `pop` + `extend(map)`, a `match`, one merged function or two).  A combination the evaluator cannot
     decide (more than one path, an unknown construct) is a violation: the rule fails closed.
@@ -601,7 +605,7 @@ def check_simple_items(ctx, f, X, rules, classmap, inl):
     look_ext = lambda n: rules.get(FP + n)
     items = [(p, item_roles(ch)) for p, ch in sorted(X.chains.items())]
     items = [(p, r) for p, r in items if r is not None]
-    seen_ops, kinds, n_rows = set(), set(), 0
+    seen_ops, kinds, n_rows, n_placed = set(), set(), 0, 0
     NONEMPTY = (b'a', b'b', b'c')
     for p, roles in items:
         name = p.split('::')[-1]
@@ -646,12 +650,114 @@ def check_simple_items(ctx, f, X, rules, classmap, inl):
         # the acceptance test of the `*` list: adjacent asterisks
         if 'list' in roles:
             check_adjacent(ctx, f, B, roles, name)
+            if b'=' in roles['op']['ops']:
+                n_placed += check_placement(ctx, f, B, roles, steps, name, inl)
     anchor = loc(f.hir[items[0][0]]['body']) if items else ''
     ctx.add('P3.simple-items.operators', 'table', anchor, seen_ops == set(OPS), 'operators handled by the attribute-value item parsers: %s (expected = >= <= ~=)' % sorted(x.decode() for x in seen_ops))
     for need in ('equality', 'present', 'substrings', 'substrings|any', 'substrings|final'):
         ctx.add('P4.discrimination', need, anchor, need in kinds, 'no combination of parse results makes the item parser build a correct filter of kind ' + need)
     ctx.add('P4.adjacent-asterisks.present', 'list test', anchor, any('list' in r for p, r in items), 'no item parser reads a `*` list')
     ctx.floor('P3', 'attribute-value item combinations evaluated', n_rows, 24)
+    ctx.floor('P3.substring-placement', 'piece lists (every pattern of equal / different pieces) x initial value evaluated', n_placed, 250)
+
+def equality_patterns(k):
+    """Every way k pieces can be equal to / different from one another: the set partitions of k positions, as restricted growth
+    strings (position j carries the number of its class, classes numbered in order of first appearance): 1, 2, 5, 15 for k = 1..4."""
+    out = [[]]
+    for _ in range(k):
+        out = [p + [c] for p in out for c in range((max(p) + 1 if p else 0) + 1)]
+    return [tuple(p) for p in out]
+
+# what the classes of a pattern are filled with: octet strings that differ in content only (all of one length), and octet strings
+# that differ in length as well - a placement that reads a piece's length, or compares lengths, decides differently on one of them
+PIECE_ALPHABETS = ((b'x', b'y', b'z', b'w'), (b'p', b'qq', b'rrr', b'ssss'))
+
+def placement_lists():
+    """The partition of `*` lists the substring placement is decided on: 0..4 non-empty pieces after the first asterisk in every
+    pattern of equal / different contents, filled from either alphabet, with and without a trailing asterisk (= an empty last piece);
+    a list that is only the trailing asterisk included (`a=i*`)."""
+    seen, out = set(), []
+    for k in range(0, 5):
+        for pat in equality_patterns(k):
+            for alpha in PIECE_ALPHABETS:
+                pieces = tuple(alpha[c] for c in pat)
+                for lst in (pieces, pieces + (b'',)):
+                    if lst and lst not in seen:
+                        seen.add(lst); out.append(lst)
+    return out
+
+SUB_NAMES = {0: 'initial', 1: 'any', 2: 'final'}
+
+def substrings_built(tag):
+    """[(context tag number, octets)...] of the SubstringFilter's `substrings` SEQUENCE inside the Tag term, when it has exactly that
+    form with every octet string known; None otherwise"""
+    sh = to_shape(tag)
+    if not (sh[0] == 'C' and sh[1] == 'C' and sh[2] == 4 and len(sh[3]) == 2 and sh[3][1][0] == 'C' and sh[3][1][1:3] == ('U', 16)):
+        return None
+    out = []
+    for x in sh[3][1][3]:
+        src = strip(x[4]) if x[0] == 'P' else None
+        if not (x[0] == 'P' and x[1] == 'OCT' and x[2] == 'C' and src[0] == 'lit' and isinstance(src[1], bytes)):
+            return None
+        out.append((x[3], bytes(src[1])))
+    return out
+
+def check_placement(ctx, f, B, roles, steps, name, inl):
+    """P3.substring-placement: WHICH piece of  attr=initial*p1*p2*..*pn  becomes `initial` [0], `any` [1], `final` [2] is a function of
+    the pieces' POSITIONS alone (RFC 4515: substring = [initial] any [final], any = "*" *(assertionvalue "*"); RFC 4511
+    SubstringFilter: at most one initial, first; at most one final, last): the value before the first asterisk is the initial one
+    if it is not empty; every piece followed by another asterisk is an `any`; the piece after the last asterisk is the final one if
+    it is not empty; all in input order.
+
+    Decided as a FUNCTION by exact literal evaluation of the item parser (build_item: absx on its typed HIR, the parsers' results
+    fixed at their application sites) on the partition placement_lists() x {no initial value, one that differs from every piece,
+    one equal to the last non-empty piece}.  What a placement can read of a piece - besides its position - is whether it is
+    empty, its content compared with another piece's / the initial value's, and its length: the partition holds every pattern of
+    equal / different contents of up to four pieces (a piece that equals the final one, all equal, the first `any` equal to the last
+    `any` ...), once with contents of one length and once with contents of different lengths.  The pieces are the OUTPUTS of
+    unescaped() (P8.slot-is-the-parser-output), so two pieces that are spelled differently but denote the same octets (`\41`
+    and `A`) are two equal pieces here.  A comparison of two pieces' contents (`==` on the octets, on `Option<&Vec<u8>>` ...) is
+    evaluated on the octets; a comparison of two references' addresses (`ptr::eq`) on the positions they point to (absx elem_refs);
+    a list the evaluator cannot decide is a violation (the rule fails closed).  Returns the number of combinations evaluated."""
+    n, undecided, wrong = 0, [], []
+    show = lambda ps: ', '.join('%s %s' % (SUB_NAMES.get(t, '[%d]' % t), v.decode()) for t, v in ps) or 'nothing'
+    for lst in placement_lists():
+        nonempty = [x for x in lst if x]
+        for initial in [b'', b'i'] + ([nonempty[-1]] if nonempty else []):
+            if not initial and lst == (b'',):
+                continue            # `a=*` is the presence test, not a substring filter (P3.shape / P4.discrimination)
+            n += 1
+            want = ([(0, initial)] if initial else []) + [(1, x) for x in lst[:-1]] + ([(2, lst[-1])] if lst[-1] else [])
+            text = 'a=%s*%s' % (initial.decode(), '*'.join(x.decode() for x in lst))
+            tags, why = build_item(f, B, roles, steps, b'=', initial, lst, inl)
+            if tags is None:
+                undecided.append('`%s`: %s' % (text, why)); continue
+            got = substrings_built(tags[1])
+            if got is None:
+                undecided.append('`%s`: not a substrings [4] filter with known octet strings but %s' % (text, fmt_shape(to_shape(tags[1]))[:160])); continue
+            if got == want:
+                continue
+            # the first piece that is placed wrongly, said in terms of the filter string
+            j = next(j for j in range(max(len(got), len(want))) if got[j:j + 1] != want[j:j + 1])
+            g, w = (got[j] if j < len(got) else None), (want[j] if j < len(want) else None)
+            if g is not None and w is not None and g[1] == w[1]:
+                first = 'substring number %d, the piece `%s`, is tagged [%d] %s, it must be [%d] %s' % (j + 1, w[1].decode(), g[0], SUB_NAMES.get(g[0], '?'), w[0], SUB_NAMES[w[0]])
+            elif g is None:
+                first = 'the %s piece `%s` is missing' % (SUB_NAMES[w[0]], w[1].decode())
+            elif w is None:
+                first = 'there is a piece too many: %s `%s`' % (SUB_NAMES.get(g[0], '[%d]' % g[0]), g[1].decode())
+            else:
+                first = 'substring number %d is %s `%s`, it must be %s `%s`' % (j + 1, SUB_NAMES.get(g[0], '[%d]' % g[0]), g[1].decode(), SUB_NAMES[w[0]], w[1].decode())
+            wrong.append((len(text), text, '`%s`: %s - %s() builds {%s}, expected {%s}' % (text, first, name, show(got), show(want))))
+    wrong.sort()
+    ctx.add('P3.substring-placement', name + '|decided', loc(B.root), not undecided,
+            'what %s() builds for a substring filter must be decided by literal evaluation (one path, a substrings [4] SEQUENCE of known octet strings); of %d filters '
+            '%d are not: %s' % (name, n, len(undecided), '; '.join(undecided[:3])[:500]))
+    ctx.add('P3.substring-placement', name + '|positions-decide', loc(B.root), not wrong,
+            'every piece followed by an asterisk is an `any` [1], only a non-empty piece after the LAST asterisk is the `final` [2], a non-empty value before the first '
+            'asterisk the `initial` [0], in input order, whatever the pieces contain (RFC 4515 substring, RFC 4511 SubstringFilter); evaluated on %d filters, %s() '
+            'places the pieces differently on %d: %s' % (n, name, len(wrong), '; '.join(w[2] for w in wrong[:3])))
+    return n
 
 def build_item(f, B, roles, steps, op, initial, lst, inl):
     """((path, Tag term), None) of the single accepting path of the item parser when its parsers yield the given results,
@@ -663,8 +769,9 @@ def build_item(f, B, roles, steps, op, initial, lst, inl):
         if hit is not None:
             return [absx.Out('val', ('ctor', 'Ok', (('tuple', hit),)), st)]
         return None
-    I = absx.Interp(f, B, inline=inl, summaries=[parsed])
+    I = absx.Interp(f, B, inline=inl, summaries=[parsed], combinators=True)
     I.exact_seqs = True
+    I.elem_refs = True      # a reference to a piece of the list knows which piece it points to (`ptr::eq` on two of them is decided)
     try:
         outs = I.run()
     except absx.TooManyPaths:
